@@ -62,13 +62,11 @@ def run(ctx, rep) -> None:
             raise AnalysisError(f"{name} not found")
         fn = f.node
         pubs = [c for c in _calls(fn) if isinstance(c.func, ast.Attribute) and c.func.attr in ("publish", "publish_batch")]
-        ok = bool(pubs)
-        for c in pubs:
-            gs = _guarding_ifs(fn, c)
-            ok = ok and any((norm(i.test) == "scope is not None" and br == "else") or (norm(i.test) == "scope is None" and br == "body") for i, br in gs)
-        rep.check(ok, "C13.R1", f"{name}: direct bus publication only without an open scope", f"{len(pubs)} publish call(s), each under `scope is None`", f.file, pubs[0].lineno if pubs else fn.lineno, disc=f"{name}:publish")
+        from ..dom import holds
+        ok = bool(pubs) and all(holds(fn, c, "scope is None", True) for c in pubs)
+        rep.check(ok, "C13.R1", f"{name}: direct bus publication only without an open scope", f"{len(pubs)} publish call(s), each reached only with `scope is None`", f.file, pubs[0].lineno if pubs else fn.lineno, disc=f"{name}:publish")
         pend = [c for c in _calls(fn) if norm(c.func) in ("scope.pending.append", "scope.pending.extend")]
-        ok = bool(pend) and all(any(norm(i.test) == "scope is not None" and br == "body" for i, br in _guarding_ifs(fn, c)) for c in pend)
+        ok = bool(pend) and all(holds(fn, c, "scope is None", False) for c in pend)
         rep.check(ok, "C13.R1", f"{name}: publication deferred to the scope", "scope.pending.append/extend under `scope is not None`", f.file, pend[0].lineno if pend else fn.lineno, disc=f"{name}:pending")
         joins = [n for n in ast.walk(fn) if isinstance(n, ast.Assign) and norm(n) == "connection = scope.connection"]
         ok = len(joins) == 1 and any("self._store_matches_scope(scope)" in norm(i.test) and "scope is not None" in norm(i.test) and br == "body" for i, br in _guarding_ifs(fn, joins[0]))
